@@ -15,13 +15,14 @@ Thorough == "VERIF_THOROUGH" \in DOMAIN IOEnv /\ IOEnv.VERIF_THOROUGH = "1"
 Pos(S) == {"b" \o ToString(i) : i \in S}
 GSigPos == IF Thorough THEN Pos(0..64) ELSE SigBytePositions
 GOvDam  == IF Thorough THEN Pos(0..31) \cup {"short31", "long33", "empty"} ELSE OvDamages
+GNetDam == IF Thorough THEN Pos(0..63) \cup {"hi32"} ELSE NetDamages
 GUnDam  == IF Thorough THEN Pos(0..7) \cup {"blast"} ELSE UnDamages
 
 \* acceptance paths: aurora.ParseAddress; handshake Handle (inbound) and Handshake (outbound);
 \* routetab FindUnderlay reply; routetab underlay list carried by a route response
 Paths == {"parse", "handle", "handshake", "underlay", "ulist"}
 
-OfBase(k, u, n) == DescriptorsOf([k |-> k, u |-> u, n |-> n], GSigPos, GOvDam, GUnDam)
+OfBase(k, u, n) == DescriptorsOf([k |-> k, u |-> u, n |-> n], GSigPos, GOvDam, GUnDam, GNetDam)
 
 \* the handshake messages carry the network id a second time, as a field of the Ack
 NetField(k, u, n) == {[k |-> k, u |-> u, n |-> n, vn |-> n, mut |-> "net_field", mk |-> 0, mu |-> 0, how |-> "none"]}
